@@ -112,7 +112,12 @@ def r1(R):
                   'FileStorage.%s: only %d mutation sites recognised' % (
                       meth, len(sites)))
         for v in vs:
-            R.violation(v.node, v.message, g, v.path, at_root=True)
+            fr = v.node.frame
+            while fr.parent is not None and fr.parent.parent is not None:
+                fr = fr.parent
+            key = ('through %s()' % fr.func.name) if fr.parent is not None \
+                else None
+            R.violation(v.node, v.message, g, v.path, at_root=True, key=key)
 
 
 WRITE_API = ('store', 'deleteObject', 'restore', 'undo', 'pack', 'tpc_begin',
